@@ -360,3 +360,105 @@ _run0 = run
 def run(rep, programs):  # noqa: F811
     _run0(rep, programs)
     r_undo_range(rep, programs["core"])
+
+
+def r_return_claimed(rep, prog):
+    rule = "R-RETURN-CLAIMED"
+    rep.rule(rule, "the frame a claiming function reports is the one whose words it claimed (same selector / index / offset terms)")
+    # ---- Lower::get
+    fn = "llfree::lower::Lower::get"
+    b = lib.need_body(prog, fn)
+    tm = T.Terms(b, prog)
+    n = 0
+    for bi, si, rv in lib.assignments_to_return(b):
+        if si == "term" or not (rv["k"] == "aggregate" and rv["kind"].get("variant") == "Ok"):
+            continue
+        n += 1
+        val = tm.operand(rv["ops"][0])
+        span = b.blocks[bi]["stmts"][si]["span"]
+        sz = [(cb, ct) for cb, ct in b.calls_to("llfree::bitfield::Bitfield::set_first_zeros")]
+        if val[0] == "call" and val[1].endswith("core::ops::arith::Add>::add"):
+            # base path: bf_i.as_frame() + offset
+            base, off = val[2]
+            okb = False
+            if sz:
+                sel = [x for x in T.walk(tm.operand(sz[0][1]["args"][0])) if x[0] == "call" and x[1] == "llfree::lower::Lower::bitfield"]
+                okb = bool(sel) and base[0] == "call" and base[1] == "llfree::lower::HugeId::as_frame" and T.canon(base[2][0]) == T.canon(sel[0][2][1])
+                oko = T.canon(off) == ("f", ("as", T.canon(tm.call_term(sz[0][0])), "Ok"), 0)
+            rep.check(bool(sz) and okb and oko, rule, "Lower::get|base-order", "returns bitfield(bf_i).as_frame() + the offset set_first_zeros claimed in bf_i",
+                      "Lower::get returns %s, which is not the block claimed by set_first_zeros" % T.show(val)[:160], span)
+        else:
+            # huge path: FrameId(tree_start.0 + HugeId(i).as_frame().0), i = start of the claimed entry range
+            ce = list(b.calls_to("<slice as llfree::atomic::AtomicSlice>::compare_exchange_all"))
+            ok = False
+            if ce and val[0] == "agg" and val[2]:
+                rng = [x for x in T.walk(tm.operand(ce[0][1]["args"][0])) if x[0] == "agg" and x[1].startswith("adt:core::ops::range::Range::Range")]
+                hid = [x for x in T.walk(val) if x[0] == "agg" and x[1].startswith("adt:llfree::lower::HugeId")]
+                ok = bool(rng) and bool(hid) and T.canon(hid[0][2][0]) == T.canon(rng[0][2][0]) and T.mentions_call(val, "llfree::trees::TreeId::as_frame")
+            rep.check(ok, rule, "Lower::get|huge-order", "returns tree start + HugeId(i).as_frame() for the claimed entries [i, i + 2^k)",
+                      "Lower::get returns %s, which is not the start of the claimed huge entries" % T.show(val)[:160], span)
+    rep.floor(rule, "Ok results of Lower::get", n, 2)
+    # targeted: returns exactly the requested frame, claimed by get_at(frame, order)
+    ga = list(b.calls_to("llfree::lower::Lower::get_at"))
+    ok = False
+    if len(ga) == 1:
+        a = [T.canon(tm.operand(x)) for x in ga[0][1]["args"]]
+        okargs = a[1] == ("f", ("as", ("p", "frame"), "Some"), 0) and a[2] == ("p", "order")
+        for cb in prog.crate("llfree").closures_of(fn):
+            ctm = T.Terms(cb, prog)
+            rets = [ctm.rvalue(rv) for _, si, rv in lib.assignments_to_return(cb) if si != "term"]
+            if rets and T.canon(rets[0]) == ("up", "frame"):
+                ok = okargs
+    rep.check(ok, rule, "Lower::get|targeted", "targeted: get_at(frame, order).map(|()| frame)",
+              "a targeted Lower::get does not claim and return exactly the requested frame", b.span)
+    # ---- get_at: the toggled bits are those of (frame, order)
+    g = lib.need_body(prog, "llfree::lower::Lower::get_at")
+    gtm = T.Terms(g, prog)
+    tg = list(g.calls_to("llfree::bitfield::Bitfield::toggle"))
+    ok = False
+    if len(tg) == 1:
+        a = [gtm.operand(x) for x in tg[0][1]["args"]]
+        ok = T.canon(a[1]) == ("p", "frame") and T.canon(a[2]) == ("p", "order") and T.const_val(a[3]) == 0
+    rep.check(ok, rule, "Lower::get_at|toggle-args", "toggle(frame, order, expected = false)", "get_at toggles other bits than (frame, order)", g.span)
+    ce = list(g.calls_to("<slice as llfree::atomic::AtomicSlice>::compare_exchange_all"))
+    ok = False
+    if len(ce) == 1:
+        rng = [x for x in T.walk(gtm.operand(ce[0][1]["args"][0])) if x[0] == "agg" and x[1].startswith("adt:core::ops::range::Range::Range")]
+        if rng:
+            lo, hi = rng[0][2]
+            d = T._lin_add(T.linear(hi), T.linear(lo), -1)
+            ok = T.mentions_param(lo, "frame") and d is not None and d[1] == 0 and len(d[0]) == 1 and list(d[0].keys())[0][0] == "pow2"
+    rep.check(ok, rule, "Lower::get_at|huge-range", "claims entries [child_idx(frame), + 2^(order-HUGE_ORDER))", "get_at claims an unexpected entry range", g.span)
+    # ---- set_first_zeros: RowId(i).as_frame() + offset with i the row that was updated
+    s = lib.need_body(prog, "llfree::bitfield::Bitfield::set_first_zeros")
+    stm = T.Terms(s, prog)
+    ups = list(s.calls_to(A + "try_update"))
+    ok = False
+    for bi, si, rv in lib.assignments_to_return(s):
+        if si == "term" or not (rv["k"] == "aggregate" and rv["kind"].get("variant") == "Ok"):
+            continue
+        val = stm.operand(rv["ops"][0])
+        if val[0] == "call" and val[1].endswith("core::ops::arith::Add>::add") and ups:
+            base, off = val[2]
+            rowsel = [x for x in T.walk(stm.operand(ups[0][1]["args"][0])) if x[0] == "agg" and x[1].startswith("adt:llfree::bitfield::RowId")]
+            okb = base[0] == "call" and base[1] == "llfree::bitfield::RowId::as_frame" and rowsel and T.canon(base[2][0]) == T.canon(rowsel[0])
+            ok = bool(okb)
+    rep.check(ok, rule, "set_first_zeros|row", "returns RowId(i).as_frame() + offset for the row it updated",
+              "set_first_zeros reports a different row than the one it updated", s.span)
+    # the offset is the one first_zeros_aligned returned for the value that was stored
+    okc = False
+    for cb in prog.crate("llfree").closures_of(s.name):
+        ctm = T.Terms(cb, prog)
+        fz = list(cb.calls_to("llfree::bitfield::first_zeros_aligned"))
+        if fz:
+            a = [T.canon(ctm.operand(x)) for x in fz[0][1]["args"]]
+            okc = a[0] == ("p", cb.local_name(2) or "_2") and a[1] == ("up", "order")
+    rep.check(okc, rule, "set_first_zeros|closure", "first_zeros_aligned(current row value, order)", "the row search is not applied to the current row value / order", s.span)
+
+
+_run1 = run
+
+
+def run(rep, programs):  # noqa: F811
+    _run1(rep, programs)
+    r_return_claimed(rep, programs["core"])
